@@ -5,10 +5,25 @@ from checks import search_common as sc
 
 HEAVY = 'k7/8/1r1q1r1q/b1q1n1q1/1Q1N1Q1B/Q1R1Q1R1/8/7K w - - 0 1'
 
+def replay_node(ctx, r):
+    # one-node counterexample (table entry with a foreign move etc.): replay natively by poisoning the real table before a real search
+    ce = r.ce('C05')
+    exe = ctx.native_bin('tt_replay', [os.path.join(sc.VERIF, 'native', 'tt_replay.cpp')], ['search', 'position', 'movegen', 'move_bitboards', 'bithacks', 'types', 'zobrist_hash', 'bitbase', 'endgame', 'score', 'move_orderer', 'time_manager', 'logger'])
+    out = ctx.sh([exe, str(ce.get('ce_ttflag', 0) % 3)], ok=(0, 1), timeout=120)
+    path = report.save_replay(ctx, r.q.name, {'harness': r.q.name, 'node': ce, 'native_output': out.strip().split('\n')[-8:]})
+    conf = 'REPRODUCED' in out and 'NOT-REPRODUCED' not in out
+    return {'confirmed': True if conf else None, 'strict': True, 'key': 'node-pv-legality', 'path': path,
+            'text': '%s: %s | node: list %s, table found=%s flag=%s depth=%s move=%s -> pv[0]=%s | native poisoned-table search: %s' % (r.q.name, '; '.join(d for _, d in r.failed[:2]), ce.get('ce_list'), ce.get('ce_ttfound'), ce.get('ce_ttflag'), ce.get('ce_ttdepth'), ce.get('ce_ttmove'), ce.get('ce_pv0'), out.strip().split('\n')[-1][:200])}
+
+
 def check(ctx):
     m, res, wit, dmax = sc.run(ctx, 'C05', ['C05'])
+    specs = [(1, False, [], ''), (2, False, [], ''), (2, True, [], '')] + ([] if ctx.tier == 'quick' else [(40, False, [], ''), (41, True, [], ''), (79, True, [], '')])
+    rb, wb = sc.run_b(ctx, 'C05', specs, ['C05', 'C03'])
+    res += rb; wit += wb
     def replay(ctx, r):
         ce = r.ce('C05')
+        if r.q.name.startswith(('h_search', 'h_qsearch')): return replay_node(ctx, r)
         exe = sc.native_engine(ctx)
         bad = []; outs = []
         # a budget that expires / a stop that arrives before depth 1 completes, as in the counterexample class
@@ -19,5 +34,5 @@ def check(ctx):
         path = report.save_replay(ctx, r.q.name, {'harness': 'h_go', 'schedule': ce, 'uci_replays': outs})
         return {'confirmed': bool(bad), 'key': 'bestmove-before-depth1', 'path': path,
                 'text': 'go answered with uci_calls=%s move=%s (root moves %s), stop point %s | native UCI: %s' % (ce.get('ce_uci_calls'), ce.get('ce_uci_move'), ce.get('ce_rm'), ce.get('ce_stop_point'), '; '.join(bad) or 'not reproduced')}
-    return report.finish(ctx, res, wit, replay=replay, assumptions=sc.ASSUME + ['legality of the PV beyond its first move and under hash collisions is the Level B (one-node) part; not yet covered by this check'],
+    return report.finish(ctx, res, wit, replay=replay, assumptions=sc.ASSUME + sc.ASSUME_B,
         bounds={'iterations': 'at most %d iterations complete (afterwards the environment interrupts the search); requested depth 0..60' % dmax, 'root moves': '1..4', 'limits': 'all combinations of depth/movetime/clock/nodes/infinite/searchmoves (symbolic)', 'stop delivery': 'every point of the Level A schedule'})
